@@ -1,5 +1,538 @@
+//! Response / request heads: C05 (every prefix), C06 (framing decision), C11 (Expect: 100-continue),
+//! C20 (standalone parsers).
 use super::Ctx;
-pub fn c05(_cx: &mut Ctx) {}
-pub fn c06(_cx: &mut Ctx) {}
-pub fn c11(_cx: &mut Ctx) {}
-pub fn c20(_cx: &mut Ctx) {}
+use crate::exec::hx;
+use crate::rng::Rng;
+
+#[derive(Clone)]
+pub struct Field {
+    pub name: Vec<u8>,
+    pub pre: Vec<u8>,
+    pub value: Vec<u8>,
+    pub post: Vec<u8>,
+}
+
+#[derive(Clone)]
+pub struct Head {
+    pub version: u8,
+    pub status: u16,
+    pub reason: Option<Vec<u8>>,
+    pub fields: Vec<Field>,
+}
+
+impl Head {
+    pub fn enc(&self) -> Vec<u8> {
+        let mut s = format!("HTTP/1.{} {:03}", self.version, self.status).into_bytes();
+        if let Some(r) = &self.reason {
+            s.push(b' ');
+            s.extend_from_slice(r);
+        }
+        s.extend_from_slice(b"\r\n");
+        s.extend_from_slice(&enc_fields(&self.fields));
+        s.extend_from_slice(b"\r\n");
+        s
+    }
+    pub fn meta(&self) -> String {
+        let mut m = format!("head {} {} {} {}", self.version, self.status, match &self.reason { Some(r) => format!("r{}", hx(r)), None => "none".into() }, self.fields.len());
+        m.push_str(&meta_fields(&self.fields));
+        m
+    }
+}
+
+pub fn enc_fields(fs: &[Field]) -> Vec<u8> {
+    let mut s = Vec::new();
+    for f in fs {
+        s.extend_from_slice(&f.name);
+        s.push(b':');
+        s.extend_from_slice(&f.pre);
+        s.extend_from_slice(&f.value);
+        s.extend_from_slice(&f.post);
+        s.extend_from_slice(b"\r\n");
+    }
+    s
+}
+
+pub fn meta_fields(fs: &[Field]) -> String {
+    let mut m = String::new();
+    for f in fs {
+        m.push_str(&format!(" {} {} {} {}", hx(&f.name), hx(&f.pre), hx(&f.value), hx(&f.post)));
+    }
+    m
+}
+
+const NAMES: [&str; 14] = ["Content-Type", "X-A", "set-cookie", "Set-Cookie", "X-Trace-Id", "server", "x_b.c~d!", "a", "Date", "VIA", "via", "ETag", "x-empty", "Warning"];
+
+fn ows(r: &mut Rng) -> Vec<u8> {
+    (0..r.below(3)).map(|_| if r.chance(1, 3) { b'\t' } else { b' ' }).collect()
+}
+
+pub fn gen_value(r: &mut Rng) -> Vec<u8> {
+    if r.chance(1, 6) { return vec![]; }
+    let n = if r.chance(1, 20) { r.range(40, 200) } else { r.range(1, 16) };
+    let mut v: Vec<u8> = (0..n).map(|_| match r.below(12) { 0 => b' ', 1 => b'\t', 2 => 0x80 + r.below(128) as u8, 3 => b':', _ => 33 + r.below(94) as u8 }).collect();
+    // no leading / trailing whitespace in the value itself
+    while v.first().map_or(false, |b| *b == b' ' || *b == b'\t') { v.remove(0); }
+    while v.last().map_or(false, |b| *b == b' ' || *b == b'\t') { v.pop(); }
+    v
+}
+
+pub fn gen_field(r: &mut Rng) -> Field {
+    let name = if r.chance(1, 5) {
+        let n = r.range(1, 12);
+        (0..n).map(|_| *r.pick(b"abcdefghijklmnopqrstuvwxyzABCDEFGHIJKLMNOPQRSTUVWXYZ0123456789!#$%&'*+-.^_`|~")).collect()
+    } else {
+        r.pick(&NAMES).as_bytes().to_vec()
+    };
+    Field { name, pre: ows(r), value: gen_value(r), post: ows(r) }
+}
+
+pub fn gen_reason(r: &mut Rng) -> Option<Vec<u8>> {
+    match r.below(6) {
+        0 => None,
+        1 => Some(vec![]),
+        2 => Some(b"OK".to_vec()),
+        3 => Some((0..r.range(20, 120)).map(|_| match r.below(8) { 0 => b' ', 1 => b'\t', 2 => 0x80 + r.below(128) as u8, _ => 33 + r.below(94) as u8 }).collect()),
+        _ => Some(b"Some Reason Here".to_vec()),
+    }
+}
+
+/// framing fields that keep the head acceptable to `try_response`
+fn framing_fields(r: &mut Rng) -> Vec<Field> {
+    let f = |n: &str, v: &str| Field { name: n.as_bytes().to_vec(), pre: b" ".to_vec(), value: v.as_bytes().to_vec(), post: vec![] };
+    match r.below(6) {
+        0 => vec![f("Content-Length", &r.below(100).to_string())],
+        1 => vec![f("Transfer-Encoding", "chunked")],
+        2 => vec![f("content-length", "0")],
+        3 => vec![f("Connection", *r.pick(&["close", "keep-alive", "Close"]))],
+        _ => vec![],
+    }
+}
+
+pub fn gen_head(r: &mut Rng, nfields: usize, allow_100: bool) -> Head {
+    let status = match r.below(8) {
+        0 => *r.pick(&[200u16, 204, 304, 404, 500, 101, 199, 999, 600]),
+        1 => *r.pick(&[301u16, 302, 303, 307, 308, 300, 399]),
+        2 => r.range(101, 999) as u16,
+        _ => 200,
+    };
+    let status = if !allow_100 && status == 100 { 200 } else { status };
+    let mut fields: Vec<Field> = (0..nfields).map(|_| gen_field(r)).collect();
+    let fr = framing_fields(r);
+    for f in fr {
+        if fields.len() < nfields.max(1) + 1 && nfields > 0 {
+            let pos = r.below(fields.len() + 1);
+            if fields.len() >= nfields { fields.remove(r.below(fields.len())); }
+            let pos = pos.min(fields.len());
+            fields.insert(pos, f);
+        }
+    }
+    if (300..400).contains(&status) && r.chance(3, 4) && nfields > 0 {
+        let loc = Field { name: b"Location".to_vec(), pre: b" ".to_vec(), value: r.pick(&["/x", "http://b.test/y", "../z?q=1"]).as_bytes().to_vec(), post: vec![] };
+        let pos = r.below(fields.len() + 1);
+        if fields.len() >= nfields { fields.remove(r.below(fields.len())); }
+        let pos = pos.min(fields.len());
+        fields.insert(pos, loc);
+    }
+    Head { version: if r.chance(1, 4) { 0 } else { 1 }, status, reason: gen_reason(r), fields }
+}
+
+fn fresh_recv(cx: &mut Ctx) -> bool {
+    super::to_recv_response(cx, "GET", "HTTP/1.1")
+}
+
+fn prefix_lengths(r: &mut Rng, len: usize) -> Vec<usize> {
+    if len <= 400 {
+        (0..len).collect()
+    } else {
+        let mut v: Vec<usize> = (0..200).collect();
+        v.extend(len - 200..len);
+        for _ in 0..64 { v.push(r.below(len)); }
+        v.sort();
+        v.dedup();
+        v
+    }
+}
+
+pub fn c05(cx: &mut Ctx) {
+    let tail: &[u8] = b"HTTP/1.1 200 OK\r\n\r\nxyz";
+    let n = if cx.thorough { 2500 } else { 260 };
+    for i in 0..n {
+        let mut r = cx.case("head");
+        let nf = match i % 10 { 0 => 0, 1 => 1, 9 => if i % 40 == 9 { 128 } else { r.range(20, 60) }, _ => r.range(1, 8) };
+        let h = gen_head(&mut r, nf, false);
+        let enc = h.enc();
+        cx.meta(&h.meta());
+        if !fresh_recv(cx) { continue; }
+        for p in prefix_lengths(&mut r, enc.len()) {
+            let res = cx.op(&format!("resp {}", hx(&enc[..p])));
+            if res != "resp 0 none" {
+                // something other than need-more-data: the flow may have changed, continue on a fresh one
+                if !fresh_recv(cx) { break; }
+            }
+        }
+        let mut full = enc.clone();
+        if i % 3 != 0 { full.extend_from_slice(tail); }
+        cx.op(&format!("resp {}", hx(&full)));
+        cx.op("canproceed");
+    }
+    // the header limit: 128 accepted, 129 and more rejected, raised when the 129th complete line ends
+    for extra in [127usize, 128, 129, 130] {
+        let mut r = cx.case("limit");
+        let mut h = gen_head(&mut r, 2, false);
+        h.status = 200;
+        h.fields = (0..extra).map(|k| Field { name: format!("x-{}", k).into_bytes(), pre: b" ".to_vec(), value: b"v".to_vec(), post: vec![] }).collect();
+        let enc = h.enc();
+        cx.meta(&h.meta());
+        if !fresh_recv(cx) { continue; }
+        let step = if cx.thorough { 1 } else { 7 };
+        let mut p = enc.len().saturating_sub(40);
+        while p < enc.len() {
+            let res = cx.op(&format!("resp {}", hx(&enc[..p])));
+            if res != "resp 0 none" && !fresh_recv(cx) { break; }
+            p += step;
+        }
+        cx.op(&format!("resp {}", hx(&enc)));
+    }
+    // every 3xx head cut at every position after its Location line (known finding D10 lives here)
+    for i in 0..(if cx.thorough { 120 } else { 24 }) {
+        let mut r = cx.case("redir");
+        let mut h = gen_head(&mut r, 3, false);
+        h.status = *r.pick(&[301u16, 302, 303, 307, 308]);
+        let loc = Field { name: (if i % 2 == 0 { "Location" } else { "location" }).as_bytes().to_vec(), pre: b" ".to_vec(), value: b"/next".to_vec(), post: vec![] };
+        let pos = r.below(h.fields.len() + 1);
+        h.fields.insert(pos, loc);
+        let enc = h.enc();
+        cx.meta(&h.meta());
+        if !fresh_recv(cx) { continue; }
+        for p in 0..enc.len() {
+            let res = cx.op(&format!("resp {}", hx(&enc[..p])));
+            if res != "resp 0 none" && !fresh_recv(cx) { break; }
+        }
+        cx.op(&format!("resp {}", hx(&enc)));
+    }
+}
+
+const CLS: [&str; 10] = ["", "0", "7", "18446744073709551615", "18446744073709551616", "+5", "-5", "5 ", "abc", "\u{e9}"];
+const TES: [&str; 9] = ["", "chunked", "Chunked", "gzip, chunked", "chunked, gzip", "gzip", " chunked ", "\u{e9}", "chunkedx"];
+
+/// drive a flow of `method` to RecvResponse (sending an empty body where the method takes one)
+pub fn to_recv_response_any(cx: &mut Ctx, method: &str) -> bool {
+    let needs_body = matches!(method, "POST" | "PUT" | "PATCH");
+    if needs_body {
+        cx.rec.new_flow(&format!("{} HTTP/1.1 http://a.test/p 1 content-length 30", method));
+    } else {
+        cx.rec.new_flow(&format!("{} HTTP/1.1 http://a.test/p 0", method));
+    }
+    cx.op("proceed");
+    cx.op("write 4096");
+    cx.op("proceed");
+    if needs_body {
+        cx.op("bwrite - 16");
+        cx.op("proceed");
+    }
+    cx.rec.state() == "recvResponse"
+}
+
+pub fn c06(cx: &mut Ctx) {
+    let special: [u16; 22] = [100, 101, 150, 199, 200, 201, 204, 205, 299, 300, 301, 302, 303, 304, 305, 307, 308, 399, 400, 404, 500, 999];
+    let mut r0 = Rng::for_case(cx.seed, 424242);
+    for m in super::flowgen::METHODS {
+        for status in 100u16..=999 {
+            let is_special = special.contains(&status);
+            if !is_special && !cx.thorough && r0.below(40) != 0 { continue; }
+            for ver in [0u8, 1] {
+                for (ci, cl) in CLS.iter().enumerate() {
+                    for (ti, te) in TES.iter().enumerate() {
+                        // quick: the full CL x TE product only for the special statuses with GET/HEAD/CONNECT/POST; otherwise a diagonal
+                        let full = is_special && (cx.thorough || matches!(m, "GET" | "HEAD" | "CONNECT" | "POST"));
+                        if !full && (ci + ti + status as usize) % 7 != 0 { continue; }
+                        if status == 100 && ti + ci > 0 && !cx.thorough && (ci + ti) % 3 != 0 { continue; }
+                        cx.case("frm");
+                        if !to_recv_response_any(cx, m) { continue; }
+                        let mut head = format!("HTTP/1.{} {} X\r\n", ver, status).into_bytes();
+                        if !cl.is_empty() { head.extend_from_slice(b"Content-Length: "); head.extend(cl.chars().map(|c| c as u32 as u8)); head.extend_from_slice(b"\r\n"); }
+                        if !te.is_empty() { head.extend_from_slice(b"Transfer-Encoding: "); head.extend(te.chars().map(|c| c as u32 as u8)); head.extend_from_slice(b"\r\n"); }
+                        head.extend_from_slice(b"\r\n");
+                        cx.op(&format!("resp {}", hx(&head)));
+                        cx.op("canproceed");
+                        cx.op("proceed");
+                        if cx.rec.state() == "recvBody" { cx.op("mode"); }
+                    }
+                }
+            }
+        }
+    }
+    // several framing fields, both orders; the first value of each name decides
+    for (a, b) in [("Content-Length: 3\r\nContent-Length: 4\r\n", 0), ("Transfer-Encoding: gzip\r\nTransfer-Encoding: chunked\r\n", 1), ("Transfer-Encoding: chunked\r\nContent-Length: 0\r\n", 2), ("Content-Length: 0\r\nTransfer-Encoding: chunked\r\n", 3), ("content-length: 0\r\ntransfer-encoding: gzip, Chunked\r\n", 4)] {
+        for status in [200u16, 302, 204] {
+            for ver in [0u8, 1] {
+                let _ = b;
+                cx.case("multi");
+                if !to_recv_response_any(cx, "GET") { continue; }
+                let head = format!("HTTP/1.{} {} X\r\n{}\r\n", ver, status, a).into_bytes();
+                cx.op(&format!("resp {}", hx(&head)));
+                cx.op("canproceed");
+                cx.op("proceed");
+                if cx.rec.state() == "recvBody" { cx.op("mode"); }
+            }
+        }
+    }
+    // request version differs from the response version
+    for reqv in ["HTTP/1.0", "HTTP/1.1"] {
+        for ver in [0u8, 1] {
+            for te in ["chunked", ""] {
+                for cl in ["5", ""] {
+                    cx.case("ver");
+                    cx.rec.new_flow(&format!("GET {} http://a.test/p 0", reqv));
+                    cx.op("proceed"); cx.op("write 4096"); cx.op("proceed");
+                    let mut head = format!("HTTP/1.{} 200 OK\r\n", ver);
+                    if !te.is_empty() { head.push_str(&format!("Transfer-Encoding: {}\r\n", te)); }
+                    if !cl.is_empty() { head.push_str(&format!("Content-Length: {}\r\n", cl)); }
+                    head.push_str("\r\n");
+                    cx.op(&format!("resp {}", hx(head.as_bytes())));
+                    cx.op("proceed");
+                    if cx.rec.state() == "recvBody" { cx.op("mode"); }
+                }
+            }
+        }
+    }
+}
+
+fn to_await100(cx: &mut Ctx, method: &str, version: &str, cl: Option<u32>) -> bool {
+    let h = match cl {
+        Some(n) => format!("2 expect {} content-length {}", hx(b"100-continue"), hx(n.to_string().as_bytes())),
+        None => format!("1 expect {}", hx(b"100-continue")),
+    };
+    cx.rec.new_flow(&format!("{} {} http://a.test/p {}", method, version, h));
+    cx.op("proceed");
+    cx.op("write 4096");
+    cx.op("proceed");
+    cx.rec.state() == "await100"
+}
+
+/// finish the exchange from wherever the flow is, offering `stream` from `soff`
+fn finish_exchange(cx: &mut Ctx, stream: &[u8], mut soff: usize, body_len: usize) {
+    for _ in 0..40 {
+        match cx.rec.state() {
+            "sendBody" => {
+                let chunked = cx.op("chunked?") == "bool true";
+                if !chunked && body_len > 0 { cx.op(&format!("bwrite {} 100", hx(&vec![b'x'; body_len]))); }
+                else if chunked { cx.op("bwrite 6162 100"); cx.op("bwrite - 100"); }
+                else { cx.op("bwrite - 100"); }
+                cx.op("canproceed");
+                cx.op("proceed");
+            }
+            "recvResponse" => {
+                let res = cx.op(&format!("resp {}", hx(&stream[soff.min(stream.len())..])));
+                let p: Vec<&str> = res.split(' ').collect();
+                if p[0] != "resp" { return; }
+                soff += p[1].parse::<usize>().unwrap();
+                if p[2] != "none" { cx.op("canproceed"); cx.op("proceed"); }
+                else if p[1] == "0" { return; }
+            }
+            "recvBody" => {
+                let res = cx.op(&format!("bread {} 1000", hx(&stream[soff.min(stream.len())..])));
+                let p: Vec<&str> = res.split(' ').collect();
+                if p[0] != "bytes" { return; }
+                soff += p[1].parse::<usize>().unwrap();
+                let can = cx.op("canproceed");
+                if can == "bool true" { cx.op("proceed"); } else { return; }
+            }
+            "redirect" => { cx.op("close?"); cx.op("proceed"); }
+            "cleanup" => { cx.op("close?"); cx.op("reason"); return; }
+            _ => return,
+        }
+    }
+}
+
+pub fn c11(cx: &mut Ctx) {
+    let reasons: [&str; 5] = [" Continue", "", " ", " Go\tOn \u{e9}", " continue please"];
+    let finals: [&str; 6] = ["HTTP/1.1 403 Forbidden\r\n\r\n", "HTTP/1.1 403 Forbidden\r\nContent-Length: 0\r\n\r\n", "HTTP/1.1 200 OK\r\nContent-Length: 2\r\n\r\nhi", "HTTP/1.0 417 Expectation Failed\r\nX: y\r\nContent-Length: 0\r\n\r\n", "HTTP/1.1 302 Found\r\nLocation: /x\r\nContent-Length: 0\r\n\r\n", "HTTP/1.1 204\r\n\r\n"];
+    // (1) interim 100 at every prefix at which the caller looks, then either path
+    for (ri, reason) in reasons.iter().enumerate() {
+        for reqv in ["HTTP/1.1", "HTTP/1.0"] {
+            let interim = format!("HTTP/1.1 100{}\r\n\r\n", reason).chars().map(|c| c as u32 as u8).collect::<Vec<u8>>();
+            for fin in [finals[2], finals[1]] {
+                let mut stream = interim.clone();
+                stream.extend_from_slice(fin.as_bytes());
+                let step = if cx.thorough || ri == 0 { 1 } else { 3 };
+                let mut p = 0;
+                while p <= interim.len() + 3 {
+                    for giveup in [false, true] {
+                        cx.case("i100");
+                        cx.meta(&format!("interim {} look {} giveup {}", interim.len(), p, giveup));
+                        let method = if reqv == "HTTP/1.0" { "POST" } else { *["POST", "PUT", "PATCH"].get(p % 3).unwrap() };
+                        if !to_await100(cx, method, reqv, Some(5)) { continue; }
+                        cx.op("keep100");
+                        let res = cx.op(&format!("read100 {}", hx(&stream[..p.min(stream.len())])));
+                        let mut soff = 0;
+                        if let Some(n) = res.strip_prefix("count ") { soff = n.parse().unwrap(); }
+                        cx.op("keep100");
+                        if !giveup && soff == 0 && p < stream.len() {
+                            // look again with everything
+                            let res = cx.op(&format!("read100 {}", hx(&stream)));
+                            if let Some(n) = res.strip_prefix("count ") { soff = n.parse().unwrap(); }
+                            cx.op("keep100");
+                        }
+                        cx.op("proceed");
+                        finish_exchange(cx, &stream, soff, 5);
+                    }
+                    p += step;
+                }
+            }
+        }
+    }
+    // (2) any other response while awaiting 100: with and without fields, at every prefix
+    for fin in finals {
+        let stream = fin.as_bytes().to_vec();
+        let head_end = fin.find("\r\n\r\n").unwrap() + 4;
+        for p in 0..=head_end {
+            for second_look in [false, true] {
+                cx.case("refuse");
+                cx.meta(&format!("final look {}", p));
+                if !to_await100(cx, "POST", "HTTP/1.1", if p % 2 == 0 { Some(5) } else { None }) { continue; }
+                cx.op(&format!("read100 {}", hx(&stream[..p])));
+                cx.op("keep100");
+                if second_look && cx.op("keep100") == "bool true" {
+                    cx.op(&format!("read100 {}", hx(&stream)));
+                    cx.op("keep100");
+                }
+                cx.op("proceed");
+                finish_exchange(cx, &stream, 0, 5);
+            }
+        }
+    }
+    // (3) the late 100: give up at once, send the body, then 100(s) before the real response
+    for n100 in 0..=2usize {
+        for fin in [finals[2], finals[0], finals[4]] {
+            for split in [false, true] {
+                for reqv in ["HTTP/1.1", "HTTP/1.0"] {
+                    cx.case("late");
+                    let mut stream = Vec::new();
+                    for _ in 0..n100 { stream.extend_from_slice(b"HTTP/1.1 100 Continue\r\n\r\n"); }
+                    stream.extend_from_slice(fin.as_bytes());
+                    cx.meta(&format!("late n100={}", n100));
+                    if !to_await100(cx, "POST", reqv, Some(5)) { continue; }
+                    cx.op("proceed");
+                    if cx.rec.state() != "sendBody" { continue; }
+                    cx.op(&format!("bwrite {} 100", hx(b"hello")));
+                    cx.op("proceed");
+                    if split {
+                        // one byte at a time through the interim responses
+                        let mut soff = 0;
+                        let mut upto = 1;
+                        let mut guard = 0;
+                        while cx.rec.state() == "recvResponse" && guard < 400 {
+                            guard += 1;
+                            let res = cx.op(&format!("resp {}", hx(&stream[soff..upto.min(stream.len())])));
+                            let p: Vec<&str> = res.split(' ').collect();
+                            if p[0] != "resp" { break; }
+                            soff += p[1].parse::<usize>().unwrap();
+                            if p[2] != "none" { cx.op("proceed"); break; }
+                            if upto >= stream.len() && p[1] == "0" { break; }
+                            upto = (upto + 1).max(soff + 1);
+                        }
+                        finish_exchange(cx, &stream, soff, 5);
+                    } else {
+                        finish_exchange(cx, &stream, 0, 5);
+                    }
+                }
+            }
+        }
+    }
+    // (4) 100 with header fields (treated as a refusal while awaiting, an error afterwards)
+    for _ in 0..1 {
+        cx.case("h100");
+        let stream = b"HTTP/1.1 100 Continue\r\nX: y\r\n\r\nHTTP/1.1 200 OK\r\nContent-Length: 0\r\n\r\n".to_vec();
+        if to_await100(cx, "POST", "HTTP/1.1", Some(5)) {
+            cx.op(&format!("read100 {}", hx(&stream)));
+            cx.op("keep100");
+            cx.op("proceed");
+            finish_exchange(cx, &stream, 0, 5);
+        }
+    }
+}
+
+const REQ_METHODS: [&str; 8] = ["GET", "POST", "HEAD", "OPTIONS", "DELETE", "M-SEARCH", "X", "PROPFIND"];
+const TARGETS: [&str; 6] = ["/", "/a/b?c=d", "*", "http://a.test/x", "/%7e", "/p\u{e9}"];
+
+pub fn c20(cx: &mut Ctx) {
+    let limits = [0usize, 1, 4, 128];
+    let n = if cx.thorough { 400 } else { 48 };
+    // responses
+    for i in 0..n {
+        let mut r = cx.case("resp");
+        let lim = limits[i % 4];
+        let nf = if lim == 128 { if i % 8 == 3 { *r.pick(&[127usize, 128, 129, 130]) } else { r.range(0, 6) } } else { r.below(lim + 3) };
+        let mut h = gen_head(&mut r, 0, true);
+        h.fields = (0..nf).map(|_| gen_field(&mut r)).collect();
+        if i % 16 == 5 { h.status = 100; }
+        let enc = h.enc();
+        cx.meta(&h.meta());
+        cx.meta(&format!("limit {}", lim));
+        for p in prefix_lengths(&mut r, enc.len()) {
+            cx.op(&format!("parse-resp {} {}", lim, hx(&enc[..p])));
+            cx.op(&format!("parse-partial {} {}", lim, hx(&enc[..p])));
+        }
+        let mut full = enc.clone();
+        if i % 2 == 0 { full.extend_from_slice(b"body bytes\r\n\r\n"); }
+        cx.op(&format!("parse-resp {} {}", lim, hx(&full)));
+        cx.op(&format!("parse-partial {} {}", lim, hx(&full)));
+    }
+    // requests
+    for i in 0..n {
+        let mut r = cx.case("req");
+        let lim = limits[i % 4];
+        let nf = if lim == 128 { if i % 8 == 3 { *r.pick(&[127usize, 128, 129, 130]) } else { r.range(0, 6) } } else { r.below(lim + 3) };
+        let fields: Vec<Field> = (0..nf).map(|_| gen_field(&mut r)).collect();
+        let method = *r.pick(&REQ_METHODS);
+        let target: Vec<u8> = r.pick(&TARGETS).chars().map(|c| c as u32 as u8).collect();
+        let ver = if r.chance(1, 4) { 0 } else { 1 };
+        let mut enc = format!("{} ", method).into_bytes();
+        enc.extend_from_slice(&target);
+        enc.extend_from_slice(format!(" HTTP/1.{}\r\n", ver).as_bytes());
+        enc.extend_from_slice(&enc_fields(&fields));
+        enc.extend_from_slice(b"\r\n");
+        cx.meta(&format!("reqhead {} {} {} {}{}", hx(method.as_bytes()), hx(&target), ver, fields.len(), meta_fields(&fields)));
+        cx.meta(&format!("limit {}", lim));
+        for p in prefix_lengths(&mut r, enc.len()) {
+            cx.op(&format!("parse-req {} {}", lim, hx(&enc[..p])));
+        }
+        let mut full = enc.clone();
+        if i % 2 == 0 { full.extend_from_slice(b"POST / HTTP/1.1\r\n"); }
+        cx.op(&format!("parse-req {} {}", lim, hx(&full)));
+    }
+    // malformed: short strings over a protocol alphabet
+    let alpha: &[u8] = b"HTP/1.02 :\r\n\tG\x00\x80";
+    let maxlen = if cx.thorough { 5 } else { 4 };
+    let mut cur: Vec<usize> = vec![];
+    cx.case("mal");
+    let mut count = 0;
+    loop {
+        let s: Vec<u8> = cur.iter().map(|&i| alpha[i]).collect();
+        cx.op(&format!("parse-resp 1 {}", hx(&s)));
+        cx.op(&format!("parse-partial 1 {}", hx(&s)));
+        cx.op(&format!("parse-req 1 {}", hx(&s)));
+        count += 1;
+        if count % 2000 == 0 { cx.case("mal"); }
+        // next string
+        let mut k = cur.len();
+        loop {
+            if k == 0 { cur = vec![0; cur.len() + 1]; break; }
+            k -= 1;
+            if cur[k] + 1 < alpha.len() { cur[k] += 1; for j in k + 1..cur.len() { cur[j] = 0; } break; }
+        }
+        if cur.len() > maxlen { break; }
+    }
+    // malformed continuations of valid prefixes
+    let bases: [&[u8]; 4] = [b"HTTP/1.1 200 OK\r\n", b"HTTP/1.1 200 OK\r\nA: b\r\n", b"GET / HTTP/1.1\r\n", b"GET / HTTP/1.1\r\nA: b\r\n"];
+    for base in bases {
+        cx.case("malc");
+        for a in alpha { for b in alpha { for c in [b'\r', b'\n', b':', b'x'] {
+            let mut s = base.to_vec(); s.push(*a); s.push(*b); s.push(c);
+            cx.op(&format!("parse-resp 4 {}", hx(&s)));
+            cx.op(&format!("parse-partial 4 {}", hx(&s)));
+            cx.op(&format!("parse-req 4 {}", hx(&s)));
+        } } }
+    }
+}
